@@ -378,8 +378,13 @@ def extract(tables=None):
             raise TranslatorError(f"Gate.{FIXED_GUARD}: not the recognised guard")
     elif generic_guard or any(i.fixed_guard for i in inits.values()):
         raise TranslatorError(f"{FIXED_GUARD} is called but not defined in Gate")
-    if "ControlledGate" not in inits or not inits["ControlledGate"].controlled_body:
-        raise TranslatorError("ControlledGate.__init__: `self.controls = [controls] if not isinstance(controls, list) …` not found")
+    qubits_variant = gate_init_qubits(tree)
+    if "ControlledGate" not in inits:
+        raise TranslatorError("ControlledGate.__init__ not found")
+    if not inits["ControlledGate"].controlled_body and qubits_variant != "list-copy":
+        # without the re-wrapping line the controls must already be a list when ControlledGate.__init__ goes on
+        raise TranslatorError("ControlledGate.__init__: `self.controls = [controls] if not isinstance(controls, list) …` not found "
+                              "and Gate.__init__ does not turn every sequence into a list")
     ci = inits["ControlledGate"]
     if ci.required != ["controls", "targets", "control_value", "target_gate"] or not ci.has_kwargs or not ci.star_kwargs \
             or ci.forwards != {"controls": "controls", "targets": "targets", "control_value": "control_value", "target_gate": "target_gate"}:
@@ -492,7 +497,8 @@ def extract(tables=None):
         entries.append({"key": "Gate:" + name, "cls": "Gate", "arity": "any", "oneCtrl": False, "controlled": False,
                         "generic": True, "cvRequired": False, "fwdCV": True, "usesCV": False, "argRequired": False,
                         "tgArgRequired": False, "fixedGuard": generic_guard, "spec": spec, "targetGate": ""})
-    return {"policy": oi.policy, "entries": entries, "singles": singles}
+    return {"policy": oi.policy, "entries": entries, "singles": singles, "qubits": qubits_variant,
+            "rewrap": inits["ControlledGate"].controlled_body}
 
 
 def arg_spec(spec):
@@ -528,6 +534,35 @@ def arg_spec(spec):
                 return ("unpack", len(st.targets[0].elts), 0)
         return ("scalar", 0, 0)
     raise TranslatorError(f"call specification {spec}")
+
+
+def gate_init_qubits(tree=None):
+    """`Gate.__init__`: `if not isinstance(X, Iterable) and X is not None: self.X = [X]` / `else: self.X = <E>` for X = targets,
+    controls.  <E> is `X` (the object the caller passed is stored: variant "as-given") or `None if X is None else list(X)`
+    (fix C09-5: every sequence becomes a new list: variant "list-copy").  -> the variant"""
+    if tree is None:
+        tree = ast.parse(open(os.path.join(REPO, SRC)).read())
+    gate = next((n for n in tree.body if isinstance(n, ast.ClassDef) and n.name == "Gate"), None)
+    init = next((m for m in gate.body if isinstance(m, ast.FunctionDef) and m.name == "__init__"), None) if gate else None
+    if init is None:
+        raise TranslatorError("Gate.__init__ not found")
+    found = {}
+    for st in init.body:
+        if not isinstance(st, ast.If) or len(st.body) != 1 or len(st.orelse) != 1:
+            continue
+        for x in ("targets", "controls"):
+            if ast.unparse(st.test) == f"not isinstance({x}, Iterable) and {x} is not None" \
+                    and ast.unparse(st.body[0]) == f"self.{x} = [{x}]":
+                e = ast.unparse(st.orelse[0])
+                if e == f"self.{x} = {x}":
+                    found[x] = "as-given"
+                elif e == f"self.{x} = None if {x} is None else list({x})":
+                    found[x] = "list-copy"
+                else:
+                    raise TranslatorError(f"Gate.__init__: `{e}` not recognised")
+    if set(found) != {"targets", "controls"} or found["targets"] != found["controls"]:
+        raise TranslatorError(f"Gate.__init__: normalisation of targets / controls not recognised ({found})")
+    return found["targets"]
 
 
 def circuit_unitary_rule():
@@ -750,6 +785,10 @@ def render(tables=None):
     L.append("/-- `Gate.get_qobj(dims)` and `propagators(expand=True)`: the compact matrix expanded with targets = the stored\n"
              "controls followed by the targets (extracted; no class overrides get_qobj / get_all_qubits) -/")
     L.append(f'def gateGetQobj : String := "{get_qobj_rule()}"\n')
+    L.append("/-- how `Gate.__init__` keeps `targets` / `controls` given as a sequence: \"as-given\" (the caller's object; ControlledGate\n"
+             "then re-wraps a non-list into a one-element list) or \"list-copy\" (fix C09-5: `list(x)`, every sequence a new list).\n"
+             "The model `GateCtor` covers integers and lists, for which both variants build the same object. -/")
+    L.append(f'def gateInitQubits : String := "{d["qubits"]}"\n')
     L.append("/-- a circuit built without `user_gates` gets a NEW empty dictionary (immutable parameter defaults, containers\n"
              "created per object, no class-level containers; the only store into it outside `__init__` is the inheritance\n"
              "loop of `add_circuit`) — extracted from circuit.py / gateclass.py / circuitsimulator.py -/")
